@@ -284,18 +284,18 @@ theorem writes_vs_whole (hcl : TextBlind w.ctl E) (hwf : WfChunkWith w.tbl fs = 
     · rw [hres] at hokS; cases hokS
 
 /-- a fresh stream is related to itself -/
-theorem inv_init (hcl : TextBlind w.ctl E) (hwf : WfChunkWith w.tbl fs = true) (g : γ) (cfg : Settings) (inpW : Bytes) :
+theorem inv_init (hwf : WfChunkWith w.tbl fs = true) (g : γ) (hg : E g g) (cfg : Settings) (inpW : Bytes) :
     Inv w E fs inpW (Stream.new w g cfg).parser ((Stream.new w g cfg).parser.machine false) (Stream.new w g cfg) [] := by
   refine ⟨0, 0, 0, _, _, [], rfl, rfl, fun _ _ h => h, PRelM.init hwf inpW _ _ _, ?_, rfl, fun h => absurd h (Nat.lt_irrefl 0)⟩
   rw [machine_x]
-  refine DK_zero.2 ⟨hcl.refl _, ⟨rfl, rfl, rfl, rfl, rfl, rfl⟩, ⟨rfl, rfl, rfl⟩, ⟨Nat.le_refl _, ?_⟩, rfl⟩
+  refine DK_zero.2 ⟨hg, ⟨rfl, rfl, rfl, rfl, rfl, rfl⟩, ⟨rfl, rfl, rfl⟩, ⟨Nat.le_refl _, ?_⟩, rfl⟩
   show sinkBytes (Stream.new w g cfg).disp.sink = sinkBytes (Stream.new w g cfg).disp.sink ++
     (if true = true then LolHtml.slice inpW 0 (0 + 0) else [])
   simp only [if_true]
   rw [slice_self, List.append_nil]
 
 /-- **Every chunking agrees with the single `write`.** -/
-theorem chunking_vs_single (hcl : TextBlind w.ctl E) (hwf : WfChunkWith w.tbl fs = true) (g : γ) (cfg : Settings)
+theorem chunking_vs_single (hcl : TextBlind w.ctl E) (hwf : WfChunkWith w.tbl fs = true) (g : γ) (hg : E g g) (cfg : Settings)
     (cs : List Bytes) (hne : cs ≠ []) :
     UncleanL (C01.run w (C01.Rewriter.new w g cfg) cs).2 ∨
     UncleanL (C01.run w (C01.Rewriter.new w g cfg) [cs.flatten]).2 ∨
@@ -304,10 +304,10 @@ theorem chunking_vs_single (hcl : TextBlind w.ctl E) (hwf : WfChunkWith w.tbl fs
   | nil => exact absurd rfl hne
   | cons c cs =>
     exact split_vs_whole hcl hwf (Stream.new w g cfg) rfl (c :: cs).flatten (C01.Rewriter.new w g cfg) rfl rfl cs c
-      (C01.Rewriter.new w g cfg) [] rfl (inv_init hcl hwf g cfg _) (by simp)
+      (C01.Rewriter.new w g cfg) [] rfl (inv_init hwf g hg cfg _) (by simp)
 
 /-- **Successful writes against one write of the same bytes.** -/
-theorem writes_vs_single (hcl : TextBlind w.ctl E) (hwf : WfChunkWith w.tbl fs = true) (g : γ) (cfg : Settings)
+theorem writes_vs_single (hcl : TextBlind w.ctl E) (hwf : WfChunkWith w.tbl fs = true) (g : γ) (hg : E g g) (cfg : Settings)
     (cs : List Bytes) (hne : cs ≠ []) (hall : ∀ r ∈ (C01.writeAll w (C01.Rewriter.new w g cfg) cs).2, r = .ok) :
     Unclean ((Stream.new w g cfg).write w cs.flatten).2 ∨
     (((C01.Rewriter.new w g cfg).write w cs.flatten).2 = .ok ∧
@@ -319,7 +319,7 @@ theorem writes_vs_single (hcl : TextBlind w.ctl E) (hwf : WfChunkWith w.tbl fs =
   | nil => exact absurd rfl hne
   | cons c cs =>
     exact writes_vs_whole hcl hwf (Stream.new w g cfg) rfl (c :: cs).flatten (C01.Rewriter.new w g cfg) rfl rfl cs c
-      (C01.Rewriter.new w g cfg) [] rfl (inv_init hcl hwf g cfg _) (by simp) hall
+      (C01.Rewriter.new w g cfg) [] rfl (inv_init hwf g hg cfg _) (by simp) hall
 
 end
 
